@@ -194,8 +194,12 @@ class ServerConfig:
         path_rules = []
         for path_config in self.certificate_auth_paths:
             # Convert fingerprints list to set if present
+            # An allow-list that is present but empty admits nobody; only a missing
+            # key means "no allow-list"
             fingerprints_list = path_config.get("allowed_fingerprints")
-            fingerprints = set(fingerprints_list) if fingerprints_list else None
+            fingerprints = (
+                set(fingerprints_list) if fingerprints_list is not None else None
+            )
 
             path_rules.append(
                 CertificateAuthPathRule(
